@@ -6,7 +6,9 @@ pub const CATS: &[&str] = &["c1", "c2", "", "cat\u{0}nul", "ca\u{301}t-\u{1F600}
 pub const NAMES: &[&str] = &["n1", "n2", "n3", "", "n\u{0}", "名前", "n'\"\\", "$n", "n1\u{200d}"];
 pub const TAG_NAMES: &[&str] = &["a", "b", "n", "", "t:1", "~", "ü", "a\u{0}b", "$exist", "user:x"];
 pub const TAG_VALUES: &[&str] = &["1", "2", "5", "10", "x", "y", "", "abc", "ABC", "a%c", "a_c", "ab", "ü", "a\u{0}z", "\u{10FFFF}", "0123456789abcdef0123456789"];
-pub const LIKE_PATTERNS: &[&str] = &["%", "a%", "%c", "a_c", "A%", "_", "", "%b%", "a\\%c", "ü", "__", "1%", "%\u{0}%"];
+// incl. WILDCARD-FREE patterns that equal a stored value only up to ASCII case (SQLite's LIKE folds ASCII case also without
+// wildcards; `=` does not) and a non-ASCII one (not folded)
+pub const LIKE_PATTERNS: &[&str] = &["%", "a%", "%c", "a_c", "A%", "_", "", "%b%", "a\\%c", "ü", "__", "1%", "%\u{0}%", "abc", "ABC", "aBc", "X", "Ab", "Ü"];
 
 pub fn value(r: &mut Rng) -> String {
     let n = match r.below(10) { 0 => 0, 1 => 1, 2 => 300, _ => r.below(24) };
